@@ -697,7 +697,20 @@ def run(tier, seed):
     if rc != 0 or not all(by[k] for k in STREAMS):
         ck.violation("harness-crash", {"kind": "crash"}, {"rc": rc, "tail": out[-3000:]}, no_input=False)
         return ck.finish()
-    ck.cases = sum(len(v) for v in by.values())
+    # positional I/O beyond 2^31 / 2^32 on a sparse file: self-contained expectations (file contents are byte lists in the
+    # model and in the oracle below, so these offsets are judged here)
+    bigoff = by.pop("bigoff", [])
+    if len(bigoff) != 2:
+        ck.violation("harness-crash", {"kind": "crash", "stream": "bigoff"}, {"got": len(bigoff)}, no_input=True)
+    for c in bigoff:
+        for j, st in enumerate(c["steps"]):
+            if st["got"] != st["want"]:
+                ck.violation("property-fails", {"kind": "property-fails", "stream": "bigoff", "op": st["op"][0], "engine": c["engine"]},
+                             {"oracle": "step %d %s returned %s, expected %s: positional I/O at large offsets must see one consistent file content "
+                                        "(what pwrite stored at an offset is what pread returns there, earlier bytes stay, size = offset + length)"
+                                        % (j, st["op"], st["got"], st["want"]), "steps": c["steps"][:j + 1], "engine": c["engine"]})
+                break
+    ck.cases = sum(len(v) for v in by.values()) + sum(len(c["steps"]) for c in bigoff)
     dist, seen = {}, set()
     for name, cases in by.items():
         d = dist.setdefault(name, {"cases": len(cases), "ops": {}, "outcomes": {}})
